@@ -393,7 +393,13 @@ InvByName(n) ==
 
 InvCheck ==
   IF l = DiagLine
-  THEN \A n \in InvSel : IF InvByName(n) THEN TRUE ELSE PrintT(<<"DIAG invariant fails", n>>)
+  THEN \A n \in InvSel : IF InvByName(n) THEN TRUE
+                         ELSE /\ PrintT(<<"DIAG invariant fails", n>>)
+                              /\ (n = "RestartEquiv" =>
+                                    LET a == StripView(RestartView(disk, now))
+                                        b == StripView(MemAfterCatchUp(now)) IN
+                                    PrintT(<<"DIAG restart view differs in", {f \in DOMAIN a : a[f] # b[f]},
+                                             "loaded live", a.live, "memory live", b.live>>))
   ELSE \A n \in InvSel : InvByName(n)
 
 (* /equipment as decoded by the driver *)
